@@ -98,6 +98,60 @@ let c06 toks =
             end;
             go tl
         | "X" :: s :: mid :: tl -> step (RtDelete (sess s, zi mid)); go tl
+        | "G" :: _s :: _tok :: tl -> go tl
+        | ("B" | "E" | "M") :: _v :: tl -> go tl
+        | "Y" :: s :: _ :: _ :: _ :: tl when is_dead s -> go tl
+        | "Y" :: s :: mid :: bytes :: r :: tl ->
+            (* coap_send of a Confirmable whose bytes the library built (first block of a large transmit) *)
+            let si = int_of_string s mod ns in
+            step (RtSend (z_of_int si, zi mid, bytes_of_tok bytes, cfgs.(si), zi r));
+            go tl
+        | "Z" :: r :: n :: tl ->
+            (* a prepare call from inside which the library sends keep-alive pings: loop, then the
+               pings are accepted, then the wait over the queue that holds them *)
+            let emit keep o =
+              List.iter (fun x -> if keep x then
+                match show_out x with
+                | Some t -> outs := (string_of_int !evi ^ "." ^ t) :: !outs
+                | None -> ()) o in
+            let n = int_of_string n in
+            let (st1, o1) = rt_step !st RtTick in
+            st := st1;
+            if n = 0 then begin
+              List.iter (fun x -> match x with
+                | RoWait (t, w, _) -> last_tick := int_of_z t; last_wait := int_of_z w | _ -> ()) o1;
+              emit (fun _ -> true) o1; go tl
+            end else begin
+              emit (fun x -> match x with RoWait _ -> false | _ -> true) o1;
+              let rec pings k toks acc =
+                if k = 0 then (List.rev acc, toks)
+                else match toks with
+                  | s :: mid :: tl2 -> pings (k - 1) tl2 ((int_of_string s mod ns, mid) :: acc)
+                  | _ -> failwith "c06 Z" in
+              let (pl, tl2) = pings n tl [] in
+              List.iter (fun (si, mid) ->
+                let (st2, o2) = rt_step !st (RtSend (z_of_int si, zi mid, rt_con_bytes Z0 (zi mid) [] [],
+                                                     cfgs.(si), zi r)) in
+                st := st2;
+                emit (fun x -> match x with RoSent _ -> false | _ -> true) o2) pl;
+              List.iter (fun (si, mid) ->
+                outs := Printf.sprintf "%d.pg:%d:%s" !evi si mid :: !outs)
+                (List.sort compare pl);
+              step RtTick; go tl2
+            end
+        | "O" :: s :: mid :: bytes :: r :: tl ->
+            (* a notification generated inside a prepare call: accepted for sending at the start of
+               the call (no coap_send result to report), then the call's loop and wait *)
+            let si = int_of_string s mod ns in
+            let (st', o) = rt_step !st (RtSend (z_of_int si, zi mid, bytes_of_tok bytes, cfgs.(si), zi r)) in
+            st := st';
+            List.iter (fun x ->
+              match x with
+              | RoSent _ -> ()
+              | _ -> (match show_out x with
+                      | Some t -> outs := (string_of_int !evi ^ "." ^ t) :: !outs
+                      | None -> ())) o;
+            step RtTick; go tl
         | "I" :: tmo :: tl -> step (RtIoProcess (zi tmo)); go tl
         | "Q" :: tl -> step RtDump; go tl
         | _ -> failwith "c06 event" in
